@@ -43,6 +43,7 @@ pub fn check(c: &Case) -> CheckResult {
     let in_layer = if matches!(c.kind, Kind::Rect { .. }) { c.in_layer } else { None };
     let fresh = || {
         let mut t = new_target(c.w, c.h, &c.init);
+        harmless_prelude(&mut t, (c.w * 7 + c.h * 13 + c.init.len() as i32) as u32);
         if let Some((x1, y1, x2, y2)) = in_layer {
             t.push_clip_rect(irect(x1, y1, x2, y2));
             t.push_layer(1.0);
